@@ -366,6 +366,9 @@ def _scenarios(prop, tier, seed=0):
         # producing poll job (idle and registered with the input / mid-loop), the input staying silent afterwards
         L.append(S('c16_p1_drop_output_su', [T('A', ('p_new', 'x'), ('pipe', 'x', {'gates': [99], 'ends': False, 'as': 'ps'}), ('p_drop', 'x'), ('wait_gate', 5), ('s_drop', 'ps')), T('W', ('open_gate', 5))],
                    pool_max=1, queues=0, setup='A!', R=(2 if q else 3), B=30, oracles=OR16))
+        # mid-loop: an item arrives (W) and its poll job runs while the output is dropped at a solver-chosen point; the input stays silent afterwards
+        if not q: L.append(S('c16_p1_drop_midloop_su', [T('A', ('p_new', 'x'), ('pipe', 'x', {'gates': [0], 'ends': False, 'as': 'ps'}), ('p_drop', 'x'), ('wait_gate', 5), ('s_drop', 'ps')), T('W', ('open_gate', 5), ('open_gate', 0))],
+                   pool_max=1, queues=0, setup='A!', R=2, B=30, oracles=OR16))
         # the producer is throttled by back-pressure (depth 1: item 0 buffered, the poll job woken by item 1 found the buffer full and registered
         # for release) when the output is dropped; the input stays silent afterwards
         L.append(S('c16_p1_drop_throttled_su', [T('A', ('p_new', 'x'), ('pipe', 'x', {'gates': [0, 1], 'ends': False, 'as': 'ps', 'depth': 1}), ('wait_gate', 5), ('s_drop', 'ps'), ('p_drop', 'x')),
